@@ -78,7 +78,12 @@ type c16Reader struct {
 }
 
 func (r *c16Reader) Read(p []byte) (int, error) { return r.r.Read(p) }
-func (r *c16Reader) Close() error                { r.m.closes.Add(1); return nil }
+// Close counts the call and fails, as a reader over a broken transport does: what the unifier does on
+// Close may not depend on whether the member's own Close succeeded.
+func (r *c16Reader) Close() error {
+	r.m.closes.Add(1)
+	return errors.New("member reader: close failed")
+}
 func (r *c16Reader) Descriptor() ociregistry.Descriptor {
 	return ociregistry.Descriptor{MediaType: "application/x-member", Digest: ociregistry.Digest(fmt.Sprintf("sha256:member%d", r.m.idx)), Size: 1}
 }
